@@ -37,7 +37,7 @@ def run_row(item):
         if o is None:
             return {"id": rid, "skip": True}
     elif k == "chunk":
-        o = chunk(r)
+        o = chunk(r, rid)
         if o is None:
             return {"id": rid, "skip": True}
     return {"id": rid, "item": r, "init": {"x": 0}, "steps": [{"a": r, "out": o.get("out", "ok"), "post": o}]}
@@ -59,8 +59,8 @@ def split_text(t):
 def roundtrip(r, rid=0):
     e, body = r["enc"], BODY[r["body"]]
     E = e.upper() if rid % 2 else e          # the encoding named in either letter case
-    name = {"none": None, "same": e, "other": OTHER.get(e, "utf-8")}[r["cs"]]
-    text = ('@charset "%s";\n' % name if name else "") + body
+    name = {"none": None, "same": e, "other": OTHER.get(e, "utf-8"), "empty": ""}[r["cs"]]
+    text = ('@charset "%s";\n' % name if name is not None else "") + body
     try:
         text.encode(e)
     except UnicodeEncodeError:
@@ -118,7 +118,7 @@ def pieces(seq, cuts, every):
     return out
 
 
-def chunk(r):
+def chunk(r, rid=0):
     e, cls = r["enc"], r["cls"]
     text = chunk_text(r)
     noforce = cls.endswith("-noforce")
@@ -149,7 +149,11 @@ def chunk(r):
             ps = pieces(data, r["cuts"], r["every"])
             if cls == "incdec":
                 d = codecs.getincrementaldecoder("css")() if auto else codecs.getincrementaldecoder("css")(encoding=given, **kw)
-                out = "".join(d.decode(p, False) for p in ps) + d.decode(b"", True)
+                if rid % 2 and ps:
+                    # the last piece of data is handed over together with the end-of-input flag
+                    out = "".join(d.decode(p, False) for p in ps[:-1]) + d.decode(ps[-1], True)
+                else:
+                    out = "".join(d.decode(p, False) for p in ps) + d.decode(b"", True)
             else:
                 class Feeder(io.RawIOBase):      # a stream that hands out exactly the scheduled chunks
                     def __init__(self, ps):
@@ -179,7 +183,10 @@ def chunk(r):
             ps = pieces(text, r["cuts"], r["every"])
             if cls == "incenc":
                 en = codecs.getincrementalencoder("css")() if auto else codecs.getincrementalencoder("css")(encoding=e)
-                out = b"".join((en.encode(p, False) or b"") for p in ps) + (en.encode("", True) or b"")
+                if rid % 2 and ps:
+                    out = b"".join((en.encode(p, False) or b"") for p in ps[:-1]) + (en.encode(ps[-1], True) or b"")
+                else:
+                    out = b"".join((en.encode(p, False) or b"") for p in ps) + (en.encode("", True) or b"")
             else:
                 buf = io.BytesIO()
                 w = codecs.getwriter("css")(buf) if auto else codecs.getwriter("css")(buf, encoding=e)
